@@ -498,7 +498,7 @@ class C08(Prop):
             return
         src = g.choice(ts)
         v = g.t[src].val
-        kind = g.choice(["shape", "index", "axis", "setitem_shape", "setitem_index", "setitem_index", "out_shape", "reshape", "setshape", "setshape", "bad_seed"])
+        kind = g.choice(["shape", "index", "axis", "setitem_shape", "setitem_index", "setitem_index", "out_shape", "reshape", "setshape", "setshape", "bad_seed", "int_nonconst"])
         if kind == "shape":
             bad = tuple(list(v.shape) + [v.shape[-1] + 1 if v.ndim else 2]) if v.ndim else (2, 3)
             other = {"n": enc_arr(np.ones((5, 7)))}
@@ -510,6 +510,12 @@ class C08(Prop):
             g.emit({"k": "op", "op": "sum", "out": g.new_h(), "args": [{"t": src}], "p": {"axis": v.ndim + 1}, "spell": g.choice(["f", "m"]), "fail": 1})
         elif kind == "setshape":
             g.emit({"k": "setshape", "tgt": src, "shape": self._bad_shape(g, v), "fail": 1})
+        elif kind == "int_nonconst":
+            # the kernel succeeds and the *result* is rejected (an integer-valued tensor cannot be
+            # non-constant): the operands were locked and registered as consumers by then
+            hi = g.leaf(shape=tuple(v.shape) if v.ndim else (2,), dtype="i8", constant=None)
+            if hi is not None:
+                g.emit({"k": "op", "op": g.choice(["add", "mul"]), "out": g.new_h(), "args": [{"t": hi}, g.choice([{"t": hi}, {"c": 2}])], "p": {}, "spell": "f", "constant": False, "fail": 1})
         elif kind == "bad_seed":
             if not g.t[src].const and g.tracking:
                 g.emit({"k": "backward", "tgt": src, "seed": rand_seed_ref(g, g.r, v.shape, "bad"), "fail": 1})
